@@ -2,6 +2,7 @@ from rtamt.syntax.ast.visitor.stl.ast_visitor import StlAstVisitor
 from rtamt.explanation.ltl.discrete_time.explainer import LTLExplainer
 from rtamt.explanation.stl.discrete_time.explanations import *
 from rtamt.exception.exception import RTAMTException
+from rtamt.pastifier.stl.horizon import bounds_in_default_unit, period_in_default_unit
 
 
 class STLExplainer(LTLExplainer, StlAstVisitor):
@@ -22,14 +23,22 @@ class STLExplainer(LTLExplainer, StlAstVisitor):
             if top_signal[0] < 0:
                 self.visit(spec, [[[0,0]], False])
 
+    def bounds_in_samples(self, element):
+        # the evaluation counts the bounds of a timed operator in sampling periods
+        # (time_unit_transformer of the interpreter); the explanation looks at the same samples
+        begin, end = bounds_in_default_unit(self.spec, element)
+        period = period_in_default_unit(self.spec)
+        return int(begin / period), int(end / period)
+
     def visitTimedEventually(self, element, args):
         intervals = args[0]
         flag = args[1]
         op_signal = self.spec.results[element.children[0]]
+        begin, end = self.bounds_in_samples(element)
         if flag:
-            op_intervals = explain_sat_timed_eventually(op_signal, intervals, element.begin, element.end)
+            op_intervals = explain_sat_timed_eventually(op_signal, intervals, begin, end)
         else:
-            op_intervals = explain_unsat_timed_eventually(op_signal, intervals, element.begin, element.end)
+            op_intervals = explain_unsat_timed_eventually(op_signal, intervals, begin, end)
         self.explanations[element.name] = intervals
         self.visit(element.children[0], [op_intervals, flag])
 
@@ -37,10 +46,11 @@ class STLExplainer(LTLExplainer, StlAstVisitor):
         intervals = args[0]
         flag = args[1]
         op_signal = self.spec.results[element.children[0]]
+        begin, end = self.bounds_in_samples(element)
         if flag:
-            op_intervals = explain_sat_timed_always(op_signal, intervals, element.begin, element.end)
+            op_intervals = explain_sat_timed_always(op_signal, intervals, begin, end)
         else:
-            op_intervals = explain_unsat_timed_always(op_signal, intervals, element.begin, element.end)
+            op_intervals = explain_unsat_timed_always(op_signal, intervals, begin, end)
         self.explanations[element.name] = intervals
         self.visit(element.children[0], [op_intervals, flag])
 
@@ -51,10 +61,11 @@ class STLExplainer(LTLExplainer, StlAstVisitor):
         intervals = args[0]
         flag = args[1]
         op_signal = self.spec.results[element.children[0]]
+        begin, end = self.bounds_in_samples(element)
         if flag:
-            op_intervals = explain_sat_timed_once(op_signal, intervals, element.begin, element.end)
+            op_intervals = explain_sat_timed_once(op_signal, intervals, begin, end)
         else:
-            op_intervals = explain_unsat_timed_once(op_signal, intervals, element.begin, element.end)
+            op_intervals = explain_unsat_timed_once(op_signal, intervals, begin, end)
         self.explanations[element.name] = intervals
         self.visit(element.children[0], [op_intervals, flag])
 
@@ -62,10 +73,11 @@ class STLExplainer(LTLExplainer, StlAstVisitor):
         intervals = args[0]
         flag = args[1]
         op_signal = self.spec.results[element.children[0]]
+        begin, end = self.bounds_in_samples(element)
         if flag:
-            op_intervals = explain_sat_timed_historically(op_signal, intervals, element.begin, element.end)
+            op_intervals = explain_sat_timed_historically(op_signal, intervals, begin, end)
         else:
-            op_intervals = explain_unsat_timed_historically(op_signal, intervals, element.begin, element.end)
+            op_intervals = explain_unsat_timed_historically(op_signal, intervals, begin, end)
         self.explanations[element.name] = intervals
         self.visit(element.children[0], [op_intervals, flag])
 
